@@ -100,11 +100,14 @@ def Pred.ty : Pred → Ty
   | .positivity t | .nonNegativity t | .inRange t _ _ | .inClosedRange t _ _ => t
 
 /-- does the numeric value `v` satisfy the predicate when `n_vectors = n`? -/
-def Pred.holds (n : Int) (v : Rat) : Pred → Bool
-  | .positivity _ => decide (0 < v)
-  | .nonNegativity _ => decide (0 ≤ v)
-  | .inRange _ lo hi => decide (lo.eval n ≤ v) && decide (v < hi.eval n)
-  | .inClosedRange _ lo hi => decide (lo.eval n ≤ v) && decide (v ≤ hi.eval n)
+def Pred.holds (n : Int) (v : Rat) : Pred → Prop
+  | .positivity _ => 0 < v
+  | .nonNegativity _ => 0 ≤ v
+  | .inRange _ lo hi => lo.eval n ≤ v ∧ v < hi.eval n
+  | .inClosedRange _ lo hi => lo.eval n ≤ v ∧ v ≤ hi.eval n
+
+instance (n : Int) (v : Rat) (p : Pred) : Decidable (p.holds n v) := by
+  cases p <;> unfold Pred.holds <;> infer_instance
 
 /-- calls a `tapkee_method_handle(X)` block makes on the implementation object -/
 inductive DispatchStep where
